@@ -140,12 +140,12 @@ func c03Linear(c *Ctx) {
 		return ok && g.Object() == dup
 	}
 	pushObj := c.obj("", "frameSorter", "push")
-	for _, in := range findInstrs(pu, callsValue(ParamV("doneCb"))) {
+	for _, in := range findInstrsLocal(pu, callsValue(ParamV("doneCb"))) {
 		site := in
-		c.cut(R, "linear:Push releases only duplicates", &Cut{Fn: pu, Target: func(i ssa.Instruction) bool { return i == site },
+		c.cut(R, "linear:Push releases only duplicates", &Cut{Fn: pu, NoInline: true, Target: func(i ssa.Instruction) bool { return i == site },
 			Edge: EdgeRel(Rel{Op: token.EQL, X: CallTo(pushObj, -1), Y: isDup}, false)}, "the wrapper releases the buffer only when push reported a duplicate (and therefore stored nothing)")
 	}
-	c.Floor(R, "duplicate release in Push", countInstr(pu, callsValue(ParamV("doneCb"))), 1)
+	c.Floor(R, "duplicate release in Push", len(findInstrsLocal(pu, callsValue(ParamV("doneCb")))), 1)
 	// push returns errDuplicateStreamData only before storing
 	// receive stream
 	cfd := c.fld("", "ReceiveStream", "currentFrameDone")
